@@ -573,11 +573,15 @@ def native_build(fam, entry, outdir):
         return None, 'native compile failed for harness: %s' % out[-1500:]
     objs.append(ob)
     exe = os.path.join(outdir, 'replay.exe')
-    rc, out = sh(cc + ['-o', exe] + objs + ['-lm', '-lpcre', '-ldl', '-lpthread'])
+    out = ''
+    for libs in (['-lm', '-lpcre', '-lX11', '-ldl', '-lpthread'], ['-lm', '-lX11', '-ldl', '-lpthread'], ['-lm', '-ldl', '-lpthread'],
+                 ['-lm', '-ldl', '-lpthread', '-Wl,--unresolved-symbols=ignore-all']):
+        rc, o2 = sh(cc + ['-o', exe] + objs + libs)
+        if rc == 0:
+            break
+        out += o2
     if rc != 0:
-        rc, out2 = sh(cc + ['-o', exe] + objs + ['-lm', '-ldl', '-lpthread'])
-        if rc != 0:
-            return None, 'native link failed: %s' % (out + out2)[-1500:]
+        return None, 'native link failed: %s' % out[-1500:]
     return exe, ''
 
 
